@@ -30,6 +30,7 @@ def gen_expr(rnd, nm, depth):
                 return {"op": "invc", "mode": rnd.randrange(nm), "arg": {"op": "gen", "mode": rnd.randrange(nm), "cr": rnd.random() < 0.5}}
             return {"op": "fnum", "mode": rnd.randrange(nm), "kind": rnd.choice(FKINDS)}       # a function of a number operator
         return {"op": "const", "val": f"{rnd.choice([2, -1, 3])}/1,0/1"}
+    if r < 0.08 + 0.35: return {"op": "pow", "base": gen_expr(rnd, nm, depth - 1), "exp": rnd.choice([2, 2, 3])}       # an integer power of a sub-expression
     if r < 0.75: return {"op": "mul", "args": [gen_expr(rnd, nm, depth - 1) for _ in range(rnd.randint(2, 3))]}
     if r < 0.9: return {"op": "add", "args": [gen_expr(rnd, nm, depth - 1) for _ in range(2)]}
     return {"op": "adj", "arg": gen_expr(rnd, nm, depth - 1)}
@@ -72,6 +73,15 @@ def enum_cases():
         for lw in words(L, llo, lhi):
             for rw in words(L, rlo, rhi):
                 yield spec, {"op": "mul", "args": [w(lw), w(rw)]}
+    # sums: (x + y) z, z (x + y), (x + y)^2, (x + y)^3 over the leaves of two-mode signatures of every statistics
+    for spec in ([('b', 'a'), ('b', 'b')], [('b', 'a'), ('f', 'c')], [('l', 'a'), ('f', 'c')], [('f', 'c'), ('f', 'd')], [('s', 's'), ('f', 'c')], [('s', 's'), ('s', 't')]):
+        L = leaves(len(spec))
+        for x, y in itertools.combinations(L, 2):
+            sm = {"op": "add", "args": [x, y]}
+            for k in (2, 3): yield spec, {"op": "pow", "base": sm, "exp": k}
+            for z in L:
+                yield spec, {"op": "mul", "args": [sm, z]}
+                yield spec, {"op": "mul", "args": [z, sm]}
     # functions of a number operator between generators, every kind, on a boson and on a ladder mode (whose numbers are negative too)
     for spec in ([('b', 'a')], [('l', 'a')]):
         L = leaves(1)
@@ -100,6 +110,7 @@ def build(e, ops):
         for f in fs[1:]: r = r + f
         return r
     if op == "adj": return build(e["arg"], ops).adjoint()
+    if op == "pow": return build(e["base"], ops) ** sympy.Integer(e["exp"])
     raise ValueError(op)
 
 def oracle(e, modes, vec):
@@ -120,6 +131,9 @@ def oracle(e, modes, vec):
             for s, x in oracle(a, modes, vec).items(): out[s] = out.get(s, 0) + x
         return {s: x for s, x in out.items() if x != 0}
     if op == "adj": return oracle(adj_expr(e["arg"]), modes, vec)
+    if op == "pow":
+        for _ in range(e["exp"]): vec = oracle(e["base"], modes, vec)
+        return vec
     raise ValueError(op)
 
 def adj_expr(e):
@@ -129,6 +143,7 @@ def adj_expr(e):
     if op == "mul": return {"op": "mul", "args": [adj_expr(a) for a in reversed(e["args"])]}
     if op == "add": return {"op": "add", "args": [adj_expr(a) for a in e["args"]]}
     if op == "adj": return e["arg"]
+    if op == "pow": return {"op": "pow", "base": adj_expr(e["base"]), "exp": e["exp"]}
 
 def parse_model(line):
     outs = []
